@@ -5,6 +5,7 @@ pub mod ev;
 pub mod gen;
 pub mod refchess;
 pub mod runner;
+pub mod uci;
 pub mod props;
 
 /// The engine's piece-square tables, read a second time straight from the repository
